@@ -3,9 +3,12 @@ from .. import lib, presentation as pr
 
 PID = "C05"
 TIERS = {
-    "quick":    dict(num=60, depth=4, bases=7, jitter=0),
+    "quick":    dict(num=140, depth=4, bases=7, jitter=0),
     "thorough": dict(num=900, depth=6, bases=12, jitter=2),
 }
+
+
+ANON = ("1JJP.cif", "1E7K_1_C.cif")     # quick: these bases also with unresolvable residue names
 
 
 def build_cases(t):
@@ -18,10 +21,12 @@ def build_cases(t):
         bases.append((name, []))
         for j in range(t["jitter"]):
             bases.append((name, [lib.seed() * 100 + j + 1, [20, 100, 300][j % 3]]))
+        if name in ANON or t["jitter"]:
+            bases.append((name, ["anon", 0]))
     cases = []
     for k, b in enumerate(beh):
         name, perturb = bases[k % len(bases)]
-        cases.append({"id": f"p{k}-{name}" + (f"-j{perturb[0]}" if perturb else ""), "base": name, "perturb": perturb,
+        cases.append({"id": f"p{k}-{name}" + (f"-{perturb[0]}" if perturb else ""), "base": name, "perturb": perturb,
                       "fmt0": b["fmt0"], "steps": b["steps"]})
     return cases, bases
 
@@ -37,7 +42,7 @@ def run(tier):
         r = lib.mc("Presentation", "MC_Presentation.cfg", sc, workers=4)
         rep.add_mc(r, "presentation state machine (motions, atom order, relabelling, format) with the guard that a text "
                       "format never has to carry a random rotation (Deliverable)",
-                   min_actions=("Rotate", "AxisPerm", "Translate", "PermuteAtoms", "RenameChains", "ShiftNumbers", "SwitchFormat"))
+                   min_actions=("Rotate", "AxisPerm", "Translate", "PermuteAtoms", "RenameChains", "ShiftNumbers", "InsertCodes", "SwitchFormat"))
         cases, bases = build_cases(t)
         # group by base so that each worker builds a base (and measures its margins) once
         groups = {}
@@ -52,9 +57,9 @@ def run(tier):
         cov["presentation_steps"] = ex[1]
         cov["rule"] = (f"{len(cases)} behaviours of specs/Presentation.tla drawn by TLC -simulate (depth {t['depth']}, seed "
                        f"{lib.seed()}) over {{6 seeded random rotations, 23 exact axis permutations, 6 integer translations up "
-                       f"to +-500 A, 3 atom-order shuffles, order-preserving chain renaming, 3 number shifts, obj/PDB/mmCIF}}, "
+                       f"to +-500 A, 3 atom-order shuffles, order-preserving chain renaming, 3 number shifts, 2 order-preserving renumberings that introduce insertion codes (n+1 becomes n^A), obj/PDB/mmCIF}}, "
                        f"replayed cumulatively on {len(bases)} base structures (corpus files re-emitted by an independent "
-                       "emitter; thorough adds seeded jitter of 0.02/0.1/0.3 A as new bases). After every step the real "
+                       "emitter; thorough adds seeded jitter of 0.02/0.1/0.3 A as new bases; some bases also with every residue name made unresolvable so that base letters are detected from the atoms). After every step the real "
                        "reader + extract_secondary_structure run on the presented structure. Non-trivial = distinct "
                        "(base, behaviour) with at least 2 steps of different kinds.")
         cov["distinct_nontrivial"] = len({(c["base"], str(c["perturb"]), str(c["steps"])) for c in cases
